@@ -16,7 +16,7 @@ pub fn def() -> PropDef {
     PropDef {
         info: PropInfo {
             id: "C18",
-            rule: "configuration = width (4 or 8) x 1-16 threads x per-thread engine (interpreter through register_allowed_memory, x86-64 JIT, Cranelift with the word as its packet) x per-thread addend (boundary-heavy) x K in {1 .. 60,000} (quick) / {.. 400,000} (thorough) atomic adds per thread executed by an in-program counted loop x initial value x position of the word inside a canary-filled page; all threads start behind a barrier in a forked child. Invariant over the history: after join the word equals initial + sum(K_i * addend_i) mod 2^width and every other byte of the page is unchanged. Sub-cases: a single add changes exactly the 4/8 bytes; a misaligned atomic add under the interpreter is an Err that leaves memory unchanged. Schedules are whatever the 16 hardware threads produce (16 worker processes each running up to 16 threads: heavy oversubscription) - this is exploration of real schedules, not of all interleavings. Non-trivial = at least two threads with K >= 10,000 running on >= 2 distinct engines; distinct by hash of the configuration.",
+            rule: "configuration = width (4 or 8) x 1-16 threads x per-thread engine (interpreter through register_allowed_memory, x86-64 JIT, Cranelift with the word as its packet) x per-thread addend (boundary-heavy) x per-thread base / source / counter registers (any three distinct of r0-r9) and displacement (0, short, long, extreme) x K in {1 .. 60,000} (quick) / {.. 400,000} (thorough) atomic adds per thread executed by an in-program counted loop x initial value x position of the word inside a canary-filled page; all threads start behind a barrier in a forked child. Invariant over the history: after join the word equals initial + sum(K_i * addend_i) mod 2^width and every other byte of the page is unchanged. Sub-cases: a single add changes exactly the 4/8 bytes; a misaligned atomic add under the interpreter is an Err that leaves memory unchanged. Schedules are whatever the 16 hardware threads produce (16 worker processes each running up to 16 threads: heavy oversubscription) - this is exploration of real schedules, not of all interleavings. Non-trivial = at least two threads with K >= 10,000 running on >= 2 distinct engines; distinct by hash of the configuration.",
             assumptions: &["lost updates are only observable if two executions actually overlap in time: K >= 10,000 per thread and a start barrier make overlap overwhelmingly likely but not certain", "property-based testing cannot enumerate interleavings; loom/shuttle-style schedule control is a different technique"],
         },
         run,
@@ -30,6 +30,19 @@ pub struct Thr {
     engine: u8,
     addend: u64,
     k: u32,
+    /// selectors for the base, source and counter registers (three distinct registers of r0-r9)
+    regs: (u8, u8, u8),
+    /// displacement of the atomic add (the base register holds address - disp)
+    disp: i16,
+}
+
+impl Thr {
+    fn registers(&self) -> (u8, u8, u8) {
+        let base = self.regs.0 % 10;
+        let src = (base + 1 + self.regs.1 % 9) % 10;
+        let rest: Vec<u8> = (0..10).filter(|r| *r != base && *r != src).collect();
+        (base, src, rest[self.regs.2 as usize % rest.len()])
+    }
 }
 
 #[derive(Clone, Debug)]
@@ -43,7 +56,10 @@ pub struct Cfg {
 }
 
 fn cfg(max_k: u32) -> impl Strategy<Value = Cfg> {
-    let thr = (0u8..3, interesting_u64(), prop_oneof![1 => 1u32..100, 3 => 10_000u32..max_k]).prop_map(|(engine, addend, k)| Thr { engine, addend, k }).boxed();
+    let disp = prop_oneof![2 => Just(0i16), 1 => prop::sample::select(vec![8i16, -8, 120, 127, 128, -128, -129, 2040, -2048, 32767, -32768, 4, -4, 1, -1])];
+    let thr = (0u8..3, interesting_u64(), prop_oneof![1 => 1u32..100, 3 => 10_000u32..max_k], (0u8..10, 0u8..9, 0u8..8), disp)
+        .prop_map(|(engine, addend, k, regs, disp)| Thr { engine, addend, k, regs, disp })
+        .boxed();
     (any::<bool>(), prop_oneof![1 => prop::collection::vec(thr.clone(), 1..2), 6 => prop::collection::vec(thr, 2..17)], interesting_u64(), any::<u16>(), prop_oneof![5 => Just(0u8), 1 => 1u8..8])
         .prop_map(|(wide, threads, initial, pos, misalign)| Cfg { wide, threads, initial, pos, misalign })
 }
@@ -71,17 +87,20 @@ impl Mem18 {
     }
 }
 
-fn program(addr: u64, addend: u64, k: u32, wide: bool) -> Vec<u8> {
+fn program(addr: u64, t: &Thr, k: u32, wide: bool) -> Vec<u8> {
     let w = if wide { 8 } else { 4 };
+    let (rb, rs, rc) = t.registers();
+    let base = addr.wrapping_sub(t.disp as i64 as u64);
+    let addend = t.addend;
     encode_prog(&[
-        Insn::new(LDDW, 1, 0, 0, addr as u32 as i32),
-        Insn::new(0, 0, 0, 0, (addr >> 32) as u32 as i32),
-        Insn::new(LDDW, 2, 0, 0, addend as u32 as i32),
+        Insn::new(LDDW, rb, 0, 0, base as u32 as i32),
+        Insn::new(0, 0, 0, 0, (base >> 32) as u32 as i32),
+        Insn::new(LDDW, rs, 0, 0, addend as u32 as i32),
         Insn::new(0, 0, 0, 0, (addend >> 32) as u32 as i32),
-        Insn::new(alu_opc(true, ALU_MOV, false), 3, 0, 0, k as i32),
-        Insn::new(xadd_opc(w), 1, 2, 0, 0),
-        Insn::new(alu_opc(true, ALU_ADD, false), 3, 0, 0, -1),
-        Insn::new(jmp_opc(true, J_NE, false), 3, 0, -3, 0),
+        Insn::new(alu_opc(true, ALU_MOV, false), rc, 0, 0, k as i32),
+        Insn::new(xadd_opc(w), rb, rs, t.disp, 0),
+        Insn::new(alu_opc(true, ALU_ADD, false), rc, 0, 0, -1),
+        Insn::new(jmp_opc(true, J_NE, false), rc, 0, -3, 0),
         Insn::new(alu_opc(true, ALU_MOV, false), 0, 0, 0, 0),
         Insn::new(EXIT, 0, 0, 0, 0),
     ])
@@ -113,7 +132,7 @@ unsafe fn child(mem: &Mem18, c: &Cfg) {
     let before: Vec<u8> = std::slice::from_raw_parts(base, PAGE).to_vec();
     if single_misaligned && addr % w as u64 != 0 {
         // interpreter only: must be an error that leaves memory unchanged
-        let prog: &'static [u8] = Box::leak(program(addr, c.threads[0].addend, 1, c.wide).into_boxed_slice());
+        let prog: &'static [u8] = Box::leak(program(addr, &c.threads[0], 1, c.wide).into_boxed_slice());
         let mut vm = AnyVm::new(VmKind::Raw, Some(prog)).expect("probe program");
         vm.register_allowed_memory(base as u64..base as u64 + PAGE as u64);
         let r = catch(std::panic::AssertUnwindSafe(|| vm.exec(Engine::Interp, &mut [], &mut [])));
@@ -135,7 +154,7 @@ unsafe fn child(mem: &Mem18, c: &Cfg) {
     let mut handles = Vec::new();
     for (ti, t) in c.threads.iter().enumerate() {
         let engine = ENGINES[t.engine as usize % 3];
-        let prog: &'static [u8] = Box::leak(program(addr, t.addend, t.k, c.wide).into_boxed_slice());
+        let prog: &'static [u8] = Box::leak(program(addr, t, t.k, c.wide).into_boxed_slice());
         let barrier = barrier.clone();
         let (range_lo, range_hi) = (base as u64, base as u64 + PAGE as u64);
         handles.push(std::thread::spawn(move || -> Result<u64, String> {
@@ -221,7 +240,7 @@ pub fn check(mem: &Mem18, c: &Cfg) -> Verdict {
 
 fn to_json(c: &Cfg) -> Value {
     json!({"wide": c.wide, "initial": c.initial.to_string(), "pos": c.pos, "misalign": c.misalign,
-           "threads": c.threads.iter().map(|t| json!([t.engine, t.addend.to_string(), t.k])).collect::<Vec<_>>()})
+           "threads": c.threads.iter().map(|t| json!([t.engine, t.addend.to_string(), t.k, [t.regs.0, t.regs.1, t.regs.2], t.disp])).collect::<Vec<_>>()})
 }
 
 fn from_json(v: &Value) -> Option<Cfg> {
@@ -230,14 +249,17 @@ fn from_json(v: &Value) -> Option<Cfg> {
         initial: v["initial"].as_str()?.parse().ok()?,
         pos: v["pos"].as_u64()? as u16,
         misalign: v["misalign"].as_u64()? as u8,
-        threads: v["threads"].as_array()?.iter().map(|t| Thr { engine: t[0].as_u64().unwrap_or(0) as u8, addend: t[1].as_str().and_then(|s| s.parse().ok()).unwrap_or(1), k: t[2].as_u64().unwrap_or(1) as u32 }).collect(),
+        threads: v["threads"].as_array()?.iter().map(|t| Thr { engine: t[0].as_u64().unwrap_or(0) as u8, addend: t[1].as_str().and_then(|s| s.parse().ok()).unwrap_or(1), k: t[2].as_u64().unwrap_or(1) as u32,
+            // replay files written before registers / displacement were varied: r1, r2, r3, +0
+            regs: (t[3][0].as_u64().unwrap_or(1) as u8, t[3][1].as_u64().unwrap_or(0) as u8, t[3][2].as_u64().unwrap_or(1) as u8),
+            disp: t[4].as_i64().unwrap_or(0) as i16 }).collect(),
     })
 }
 
 fn run(ctx: &Ctx) {
     let mem = RefCell::new(Mem18::new());
     ctx.shrink_iters.set(60);
-    let cases = ctx.share(ctx.tier.pick(1_600, 24_000));
+    let cases = ctx.share(ctx.tier.pick(4_800, 48_000));
     let max_k = ctx.tier.pick(60_000, 400_000);
     ctx.search("stress", "cfg", cases, cfg(max_k), |c, want_case| {
         let v = check(&mem.borrow(), c);
@@ -251,6 +273,9 @@ fn run(ctx: &Ctx) {
                 st.class(&format!("distinct-engines:{}", engines.len()));
                 if c.misalign != 0 {
                     st.class("misaligned-sub-case");
+                }
+                for t in &c.threads {
+                    st.class(&format!("{}:base-r{}", ENGINES[t.engine as usize % 3].name(), t.registers().0));
                 }
                 let busy: std::collections::BTreeSet<u8> = c.threads.iter().filter(|t| t.k >= 10_000).map(|t| t.engine % 3).collect();
                 if c.threads.iter().filter(|t| t.k >= 10_000).count() >= 2 && busy.len() >= 2 {
